@@ -208,6 +208,24 @@ def goU (ls : List Lst) : Option Int → List Int → List Item
   | _, [] => []
   | p, t :: rest => listenU ls p t ++ goU ls (some t) rest
 
+/-! ### `events_iterator` and `find_event` (consumers of an output stream) -/
+
+/-- `orb.event and (not events or orb.event.info in events)` -/
+def wanted (events : List String) (it : Item) : Bool :=
+  match it.ev with
+  | some (_, lab) => events.isEmpty || events.contains lab
+  | none => false
+
+/-- `events_iterator(iterator, *events)`: the items that carry an event whose label is listed (any event when no
+label is given), in stream order -/
+def eventsIterator (events : List String) (s : List Item) : List Item := s.filter (wanted events)
+
+/-- `find_event(iterator, event, offset)`: the `offset`-th (from 0) item of `events_iterator(iterator, event)`;
+`none` stands for `RuntimeError("No event … found")` — raised when the stream holds too few such events, and also for a
+negative `offset` (`i == offset` never holds) -/
+def findEvent (s : List Item) (event : String) (offset : Int) : Option Item :=
+  if offset < 0 then none else (eventsIterator [event] s)[offset.toNat]?
+
 /-- integer polynomial, coefficients in ascending order (Horner) -/
 def evalPoly (cs : List Int) (x : Int) : Int := cs.foldr (fun c acc => c + x * acc) 0
 
